@@ -393,6 +393,7 @@ class SClient(NullHandler):
         self.poll_out -= 1
         if self.stopped:
             return
+        req.processed = True
         if req.status == 200:
             pkts = self._decode_http(req)
             for i, p in enumerate(pkts or []):
@@ -651,6 +652,11 @@ class SClient(NullHandler):
             not conn.client_closed
         u['ok'] = ok
         self.k.ev('c.upg_finish', c=self.idx, ok=ok)
+        sid = self.sid
+
+        def observe():
+            u['snap_after'] = (self.k.seq, self.k.now, self.w.peek(sid))
+        self.k.after(16 * TICK, observe, 'c.upg_observe')
         if ok:
             self.transport = 'websocket'
             self.main_ws = conn
